@@ -320,7 +320,7 @@ theorem def_visits (n id : PTree) (hu : DefUse n id) :
       Visits.bind_first (recordBody_visits k rb id hbu) (fun _ => scopesPop_keeps)
   unfold indexDef
   simp only [hrb]
-  refine Visits.bind_second (by pre_prim (by unfold sameFileDefset; keeps)) fun ds => ?_
+  refine Visits.bind_second (by pre_prim (by unfold defDefset sameFileDefset; keeps)) fun ds => ?_
   rcases hu.name with hnone | ⟨nameValue, inner, sv, name, se, h1, h2, h3, h4, h5, h6⟩
   · simp only [hnone, pure_bind]
     refine Visits.bind_second (by pre_prim nextAnonymousDefName_keeps) fun nm => ?_
